@@ -1,0 +1,123 @@
+//go:build verif
+
+// Contracts for the verification framework in /verif (comment-only file; it is
+// compiled only with -tags verif and contributes no code). Syntax: CONTRACTS.md.
+
+package dhcpv6
+
+// ---- server.go: address / prefix ownership in the local DHCPv6 pools (C02) ----
+//
+// Bindings are keyed by the client DUID. ipkey(x) is the identity of x's
+// net.IP.Equal class. The lock invariants say: the free list holds pairwise
+// different addresses (avdist), none of which is bound to a client (avfree), and
+// no two clients are bound to the same address (inj). Prefixes are *net.IPNet
+// objects created once by NewPrefixPool; for them the same three facts are
+// stated over object identity.
+
+//@ type AddressPool
+//@   owns mu: allocated available quarantined
+//@   inv nonnil: self.allocated != nil
+//@   inv sep: arr(self.quarantined) == 0 || arr(self.quarantined) != arr(self.available)
+//@   inv avdist: forall i int, j int :: 0 <= i && i < j && j < len(self.available) ==> ipkey(self.available[i]) != ipkey(self.available[j])
+//@   inv avfree: forall i int, d string :: 0 <= i && i < len(self.available) && d in self.allocated ==> ipkey(self.available[i]) != ipkey(self.allocated[d])
+//@   inv inj: forall d string, e string :: d in self.allocated && e in self.allocated && d != e ==> ipkey(self.allocated[d]) != ipkey(self.allocated[e])
+
+//@ func (p *AddressPool) Allocate
+//@   modifies p.allocated, p.available
+//@   ensures result != nil ==> duid in p.allocated && p.allocated[duid] == result
+//@   ensures forall d string :: d in p.allocated && d != duid ==> ipkey(p.allocated[d]) != ipkey(result) || result == nil
+//@   ensures forall d string :: d != duid ==> (d in p.allocated) == locked(d in p.allocated) && p.allocated[d] == locked(p.allocated[d])
+//@   ensures locked(duid in p.allocated) ==> result == locked(p.allocated[duid]) && p.available == locked(p.available)
+//@   ensures !locked(duid in p.allocated) && locked(len(p.available)) > 0 ==> result == locked(p.available[0]) && duid in p.allocated
+//@   ensures !locked(duid in p.allocated) && locked(len(p.available)) == 0 ==> result == nil && duid !in p.allocated
+//@   ensures !locked(duid in p.allocated) ==> forall i int :: 0 <= i && i < len(p.available) ==> ipkey(p.available[i]) != ipkey(result) || result == nil
+//@   sets v6Alloc = v6Alloc + 1
+
+//@ func (p *AddressPool) Release
+//@   modifies p.allocated, p.available
+//@   ensures duid !in p.allocated
+//@   ensures forall d string :: d != duid ==> (d in p.allocated) == locked(d in p.allocated) && p.allocated[d] == locked(p.allocated[d])
+//@   ensures locked(duid in p.allocated) ==> len(p.available) == locked(len(p.available)) + 1 && p.available[len(p.available)-1] == locked(p.allocated[duid])
+//@   ensures !locked(duid in p.allocated) ==> p.available == locked(p.available)
+//@   sets v6RelAddr = v6RelAddr + 1
+
+//@ type PrefixPool
+//@   owns mu: allocated available
+//@   inv nonnil: self.allocated != nil
+//@   inv avdist: forall i int, j int :: 0 <= i && i < j && j < len(self.available) ==> self.available[i] != self.available[j]
+//@   inv avfree: forall i int, d string :: 0 <= i && i < len(self.available) && d in self.allocated ==> self.available[i] != self.allocated[d]
+//@   inv inj: forall d string, e string :: d in self.allocated && e in self.allocated && d != e ==> self.allocated[d] != self.allocated[e]
+
+//@ func (p *PrefixPool) Allocate
+//@   modifies p.allocated, p.available
+//@   ensures result != nil ==> duid in p.allocated && p.allocated[duid] == result
+//@   ensures forall d string :: d in p.allocated && d != duid ==> p.allocated[d] != result || result == nil
+//@   ensures forall d string :: d != duid ==> (d in p.allocated) == locked(d in p.allocated) && p.allocated[d] == locked(p.allocated[d])
+//@   ensures locked(duid in p.allocated) ==> result == locked(p.allocated[duid]) && p.available == locked(p.available)
+//@   ensures !locked(duid in p.allocated) && locked(len(p.available)) > 0 ==> result == locked(p.available[0]) && duid in p.allocated
+//@   ensures !locked(duid in p.allocated) && locked(len(p.available)) == 0 ==> result == nil && duid !in p.allocated
+
+//@ func (p *PrefixPool) Release
+//@   modifies p.allocated, p.available
+//@   ensures duid !in p.allocated
+//@   ensures forall d string :: d != duid ==> (d in p.allocated) == locked(d in p.allocated) && p.allocated[d] == locked(p.allocated[d])
+//@   ensures locked(duid in p.allocated) ==> len(p.available) == locked(len(p.available)) + 1 && p.available[len(p.available)-1] == locked(p.allocated[duid])
+//@   ensures !locked(duid in p.allocated) ==> p.available == locked(p.available)
+
+// Quarantine ends a binding whose address the client reported as in use by
+// someone else (DECLINE): the address is not on the free list afterwards.
+//@ func (p *AddressPool) Quarantine
+//@   modifies p.allocated, p.available, p.quarantined
+//@   ensures duid !in p.allocated
+//@   ensures forall d string :: d != duid ==> (d in p.allocated) == locked(d in p.allocated) && p.allocated[d] == locked(p.allocated[d])
+//@   ensures p.available == locked(p.available)
+//@   ensures locked(duid in p.allocated) ==> forall i int :: 0 <= i && i < len(p.available) ==> ipkey(p.available[i]) != ipkey(locked(p.allocated[duid]))
+//@   sets v6Quarantined = v6Quarantined + 1
+
+// ---- server.go: RELEASE and DECLINE (C02: a declined address is not offered again) ----
+//
+// releaseAddress(quarantine) returns the address to the local pool's free list
+// only when quarantine is false; endBinding passes its flag on for a client that
+// has an address; DECLINE ends the binding with quarantine set, RELEASE without.
+
+//@ type Server
+//@   owns leasesMu: leases
+
+//@ func (s *Server) releaseAddress
+//@   ghost v6RelAddr mathint = 0
+//@   ghost v6Quarantined mathint = 0
+//@   modifies s.addressPool.allocated, s.addressPool.available, s.addressPool.quarantined
+//@   ensures old(s.addressAllocator) == nil && old(s.addressPool) != nil ==> v6Quarantined == ite(quarantine, 1, 0) && v6RelAddr == ite(quarantine, 0, 1)
+//@   ensures old(s.addressAllocator) != nil ==> v6Quarantined == 0 && v6RelAddr == 0
+//@   sets relAddrCalls = relAddrCalls + 1
+//@   sets relAddrQuar = relAddrQuar + ite(quarantine, 1, 0)
+
+//@ func (s *Server) releasePrefix
+//@   modifies s.prefixPool.allocated, s.prefixPool.available
+
+//@ func (m *Message) GetOption
+//@   modifies nothing
+
+//@ func (s *Server) sendResponse
+//@   trusted serialises the message and writes it to the UDP socket
+//@   modifies nothing
+
+//@ func (s *Server) endBinding
+//@   requires msg != nil && addr != nil && s.serverDUID != nil
+//@   ghost relAddrCalls mathint = 0
+//@   ghost relAddrQuar mathint = 0
+//@   ensures relAddrCalls <= 1 && relAddrQuar == ite(quarantine, relAddrCalls, 0)
+//@   sets endCalls = endCalls + 1
+//@   sets endQuar = endQuar + ite(quarantine, 1, 0)
+
+//@ func (s *Server) handleRelease
+//@   requires msg != nil && addr != nil && s.serverDUID != nil
+//@   ghost endCalls mathint = 0
+//@   ghost endQuar mathint = 0
+//@   ensures endCalls == 1 && endQuar == 0
+
+//@ func (s *Server) handleDecline
+//@   requires msg != nil && addr != nil && s.serverDUID != nil
+//@   ghost endCalls mathint = 0
+//@   ghost endQuar mathint = 0
+//@   ensures endCalls == 1 && endQuar == 1
